@@ -19,6 +19,7 @@ from mc.sandbox.box import Sandbox, build_macro, namespaces_available
 
 PROP = "C16"
 F1, F2 = "/data/one.root", "/data/two.root"
+FB = "/data/run 2012B/part one.root"      # a legal path with blanks
 MOUNTED = ["/data/f0.root", "/data/f1.root"]
 BUILD_TOOLS = {"cmake", "make", "scram", "mkedanlzr"}
 JOB_TOOLS = {"python", "cmsRun"}
@@ -43,6 +44,8 @@ INV = {
     "stray": ["stray"],
     "stray-after-flag": ["-c", "stray"],
     "r-d-joined": ["-rd", F1],
+    "d-blank": ["-d", FB],
+    "r-d-blank-o": ["-r", "-d", FB, "-o", "/out2"],
 }
 HIST = ["full", "c", "r-d-o", "r-d2-o2", "r"]
 
